@@ -7,7 +7,8 @@ Tie:   program correspondence with C02's table and interpreter (harness/h_c05.cp
        stamp "executor, job, Call|Drop" around every Call / Drop so that each callback records where it runs, and refuse from
        their k-th Submit on.  Cases = programs (C02's alphabets + seeded random, executors re-assigned per step among
        m0 m1 m2 / MakeInline() / MakeInline(StopTag)) x every (executor x, position k <= submissions to x + 1); plus coroutine
-       sources with `co_await On(e)` segments and final continuations (Detach / Subscribe).  The same cases are evaluated by
+       sources with `co_await On(e)` segments, final continuations (Detach / Subscribe) and Task pipelines started with
+       ToFuture(e) / Detach(e) / Cancel() / Detach() / ToFuture() (Place.dlazy: the start replaces the head's executor).  The same cases are evaluated by
        Place.drun inside Coq: final Result, ordered (callback id, argument) list, the stamp of every invocation handed to an
        instrumented executor, every job's executor / index / fate, the executor the final core holds.
 Oracle: harness/h_c05.cpp Walk5 + the checks in RunCase — written from the property text only, in-process.
@@ -69,14 +70,21 @@ def current_execs(p):
 
 # ------------------------------------------------------------------------------------------------ cases
 
-def mk_case(p, rej=None, segs=None, detach=False):
-    return dict(p=p, rej=rej, segs=segs or [], detach=detach)
+def mk_case(p, rej=None, segs=None, detach=False, start=None):
+    """start: None | ("tf", e) ToFuture(e) | ("td", e) Detach(e) | ("tc",) Cancel() | ("tdd",) Detach() — p then ends in a Task"""
+    return dict(p=p, rej=rej, segs=segs or [], detach=detach, start=start)
+
+
+def no_final(c):
+    return c["detach"] or (c.get("start") is not None and c["start"][0] != "tf")
 
 
 def wire_case(c):
     rej = "-" if c["rej"] is None else "%d:%d" % c["rej"]
     co = "-" if not c["segs"] else ",".join("%s.%d" % (e, i) for e, i in c["segs"])
-    return "%s %s %s %s" % (rej, co, "d" if c["detach"] else "-", L.wire(c["p"]))
+    st = c.get("start")
+    fin = "d" if c["detach"] else "-" if st is None else st[0] if len(st) == 1 else "%s.%s" % st
+    return "%s %s %s %s" % (rej, co, fin, L.wire(c["p"]))
 
 
 def gallina_case(c):
@@ -86,7 +94,9 @@ def gallina_case(c):
         cel = "[(%d%%nat, [%s])]" % (cid, "; ".join("(%s, %d%%nat)" % (L.g_exec(e), i) for e, i in c["segs"]))
     else:
         cel = "[]"
-    return "(%s, %s, %s)" % (rej, cel, L.gallina(c["p"]))
+    st = c.get("start")
+    stt = "None" if st is None or st[0] == "tdd" else "(Some XStopped)" if st[0] == "tc" else "(Some %s)" % L.g_exec(st[1])
+    return "(%s, %s, %s, %s)" % (stt, rej, cel, L.gallina(c["p"]))
 
 
 def detach_cases(rng, n):
@@ -136,6 +146,54 @@ def coro_cases(rng, n, full):
     return out
 
 
+def lazy_heads(tv):
+    st = [L.res_of(s, tv) for s in L.STATES]
+    nf = lambda b: L.mkfn("N", "V" if tv else "I", b)
+    return [{"src": ("run", "T", "m0", nf(("ret", 2))), "ops": []},        # Schedule(e1, f)
+            {"src": ("run", "T", "i", nf(("ret", 2))), "ops": []},         # Schedule(f)'s executor
+            {"src": ("ready", "T", tv, st[0]), "ops": []},                # MakeTask
+            {"src": ("run", "T", "m1", L.mkfn("R", "RV" if tv else "RI", ("reserr", 4))), "ops": []},
+            {"src": ("prom", "T", tv, "m2", 0, ("set", 0, st[0])), "ops": []},   # LazyContract(e1, f)
+            {"src": ("coro", "T", tv, 0, st[0]), "ops": []},
+            {"src": ("ready", "T", tv, st[1]), "ops": []},
+            {"src": ("run", "T", "s", nf(("ret", 2))), "ops": []}]
+
+
+STARTS = [("tf", "m0"), ("tf", "m1"), ("td", "m2"), ("tc",), ("tdd",), ("tf", "s"), ("td", "m0"), ("tf", "i"), ("tf", "m2"), ("td", "m1")]
+
+
+def lazy_cases(rng, n, full):
+    """Task pipelines started with ToFuture(e) / Detach(e) / Cancel() / ToFuture() / Detach(): 1-4 steps mixing Then(f), Then(e, f),
+    ThenInline(f); full: every attach pattern of length 2-4 x every head x every start form (callbacks sampled)"""
+    import itertools
+    pats = [pt for k in (1, 2, 3, 4) for pt in itertools.product(("inherit", "on", "inline"), repeat=k)]
+    combos = [(tv, hi, pt, st) for tv in (0, 1) for hi in range(len(lazy_heads(0))) for pt in pats for st in STARTS]
+    if not full:
+        combos = rng.sample(combos, min(n, len(combos)))
+    elif len(combos) > n:
+        # all patterns x heads with a sampled start each, then the rest sampled
+        combos = rng.sample(combos, n)
+    out = []
+    for tv, hi, pt, st in combos:
+        p = L.clone(lazy_heads(tv)[hi])
+        simple = rng.random() < 0.5
+        for a in pt:
+            wk, tvv = L.world(p)
+            if simple:
+                par = rng.choice(["R", "R", "N" if tvv else "V", "E"])
+                ret = ("V" if tvv else "I") if par == "E" else rng.choice(["I", "V"])
+                step = ("then", a, L.mkfn(par, ret, ("ret", rng.randrange(5))))
+            else:
+                step = L.clone(rng.choice(L.steps("T", tvv, 0)))
+            att = ("on", rng.choice(EXECS + EXECS + ["s"])) if a == "on" else a
+            p["ops"].append(("then", att, step[2]))
+        p = L.number(p)
+        out.append(mk_case(p, start=st))
+        if st[0] == "tf" and rng.random() < 0.3:
+            out.append(mk_case(L.finish(p)))   # the same pipeline started with ToFuture()
+    return out
+
+
 def base_cases(ck, rng):
     pick = lambda n, k: sorted(rng.sample(range(n), min(k, n)))
     thorough = ck.tier == "thorough"
@@ -172,6 +230,7 @@ def base_cases(ck, rng):
         cases.append(mk_case(assign(p, [rng.choice(EXECS + EXECS + ["i", "s"]) for _ in slots])))
     cases += detach_cases(rng, ndet)
     cases += coro_cases(rng, ncoro, thorough)
+    cases += lazy_cases(rng, 6000 if thorough else 450, thorough)
     return cases, n_enum, plan
 
 
@@ -191,7 +250,7 @@ def rejections(c, row, rng, cap):
     allr = [(x, k) for x in range(3) if jobs[x] for k in range(1, len(jobs[x]) + 2)]
     if cap is not None and len(allr) > cap:
         allr = rng.sample(allr, cap)
-    return [dict(p=c["p"], rej=r, segs=c["segs"], detach=c["detach"]) for r in allr]
+    return [dict(p=c["p"], rej=r, segs=c["segs"], detach=c["detach"], start=c.get("start")) for r in allr]
 
 # ------------------------------------------------------------------------------------------------ Coq side
 
@@ -262,12 +321,13 @@ def compare(c, row, d):
     ctxs = [int(e.rsplit("@", 1)[1]) for e in row["events"].split(",")] if row["events"] else []
     if not d["ran"]:
         return "Place.drun says the program does not compile, the compiler accepted it"
+    nofin = no_final(c)
     if not d["typed"] and not c["detach"]:
         # (a final continuation may drop the value type: Detach(e, f(E)) -> void in an int world is outside Pipe's typing)
         return "Pipe.prog_ty rejects a program the compiler accepted"
     if not d["agree"]:
         return "drun and dseq disagree on this case"
-    if not c["detach"] and d["final"] != final:
+    if not nofin and d["final"] != final:
         return "model predicts final %s, implementation showed %s" % (d["final"], final)
     mev = [(e["id"],) + e["inp"] for e in d["events"]]
     if mev != evs:
@@ -300,7 +360,7 @@ def compare(c, row, d):
                 return "model has a submitted invocation of %d on m%d without a job" % (e["id"], e["ex"] - 10)
             if st != ctx:
                 return "invocation of %d: model predicts stamp %d (executor, job, Call|Drop), implementation showed %d" % (e["id"], st, ctx)
-    if not c["detach"] and row.get("fexec") not in ("-", "") and row["fexec"] != d["fexec"]:
+    if not nofin and row.get("fexec") not in ("-", "") and row["fexec"] != d["fexec"]:
         return "final core holds %s, model predicts %s" % (row["fexec"], d["fexec"])
     if row.get("pend"):
         return "%d jobs left in a drained ManualExecutor" % row["pend"]
@@ -323,6 +383,8 @@ def features(c, d):
         keys.add("coroutine-on")
     if c["detach"]:
         keys.add("final-continuation")
+    if c.get("start") is not None:
+        keys.add("task-started-%s" % {"tf": "ToFuture(e)", "td": "Detach(e)", "tc": "Cancel()", "tdd": "Detach()"}[c["start"][0]])
     if any(e["sub"] and e["inp"][0] in (0, 2) and e["inp"][1:] == (2, -1) for e in d["events"]):
         keys.add("callback-saw-StopError")
     return bool(keys), keys
@@ -464,7 +526,9 @@ def main(ck):
                       "catalogue alone, every program over the alphabets in `plan` (steps, full source catalogue?, alphabet level), a sample "
                       "of the two-step programs, seeded random programs of 3-8 steps; each also with its executors re-assigned per step among "
                       "m0 m1 m2 (instrumented) / MakeInline() / MakeInline(StopTag) (thorough: every assignment of m0..m2 for the programs of `plan` with "
-                      "<= 2 executor slots); coroutine sources with 1-3 `co_await On(e)` segments; programs whose last step is a Detach / Subscribe.  "
+                      "<= 2 executor slots); coroutine sources with 1-3 `co_await On(e)` segments; programs whose last step is a Detach / Subscribe; Task pipelines (Schedule(e1,f) / MakeTask / LazyContract / coroutine "
+                      "heads, 1-4 steps mixing Then(f) / Then(e,f) / ThenInline(f)) started with ToFuture(e) / Detach(e) / Cancel() / Detach() / "
+                      "ToFuture(), e among the instrumented executors, MakeInline() and MakeInline(StopTag).  "
                       "Rejections: for every case and every instrumented executor x that receives n >= 1 Submits, every k in 1..n+1 (quick: at "
                       "most 4 sampled positions for long programs).  Exhaustive over those alphabets only.  non-trivial = some job was Dropped, "
                       "or invocations ran inside two different instrumented executors, or a Then(f) inherited an instrumented executor, or a "
@@ -478,7 +542,7 @@ def main(ck):
     pairs = [(c, r) for c, r in zip(cases, rows) if r and "final" in r]
     ck.cov["samples"] = [dict(case=wire_case(c), final=r["final"], events=r["events"], jobs=r["jobs"], final_executor=r.get("fexec"))
                          for c, r in pairs[:1] + [x for x in pairs if x[0]["rej"]][:2] + [x for x in pairs if x[0]["segs"]][:1] +
-                         [x for x in pairs if x[0]["detach"]][:1]]
+                         [x for x in pairs if x[0]["detach"]][:1] + [x for x in pairs if x[0].get("start")][:2]]
     for w, why in bad[:10]:
         ck.broken.append(dict(name="correspondence Place.drun vs implementation", detail="%s\ncase: %s" % (why, w)))
     if bad:
